@@ -1,8 +1,8 @@
 (** C03 — shell output reaches the operator byte-exact, in order.
-    PARTIAL: the model forwards every read within its step (unbounded operator
-    channel); the bounded queues of proxyOut (2 internal slots, the operator
-    channel's capacity) are exercised by the harness's stalled-terminal cases
-    and judged by the monitor, not proved. *)
+    Two models: the broker model forwards every read within its step
+    (unbounded operator channel); the fine-grained model of proxyOut
+    (Model/ProxyOut.v) has the bounded queues (2 internal slots, the operator
+    channel's capacity) and every interleaving - its theorems are at the end. *)
 From CRS Require Import Lib.Bytes Model.Broker Proofs.BrokerProofs Props.C01 Model.Terminal Proofs.TerminalProofs.
 Open Scope N_scope.
 
@@ -40,3 +40,24 @@ Example c03_example :
               OData 1 [4] None] in
   map o_och (snd (run ops)) = [[ONote NConnected 1]; [OPlain [1; 2]]; []; [OPlain [3]; ONote NClosed 1]; []].
 Proof. vm_compute. reflexivity. Qed.
+
+From CRS Require Import Model.ProxyOut Proofs.ProxyOutProofs.
+(** Over the FINE-GRAINED model of proxyOut (Model/ProxyOut.v: reader, queue of
+    two, forwarding loop, operator channel of any capacity [cap], terminal
+    draining at its own pace, cancellation at any point; a run is any sequence
+    of events), tied to the code by the stalled-terminal replay (Judge/ProxyQ.v):
+    what has been shown or is waiting for the terminal is always a prefix, chunk
+    by chunk, of what the shell sent; when the stream ends by itself while the
+    shell is attached, everything read before the end has been handed to the
+    operator channel before proxyOut returns (so before the close notice); the
+    queues are bounded. *)
+Theorem c03_queue_shown_prefix : forall cap reads es,
+  let s := prun cap (pinit reads) es in exists rest, readc s = shown s ++ och s ++ rest.
+Proof. exact shown_prefix. Qed.
+Theorem c03_queue_self_end_complete : forall cap reads es,
+  let s := prun cap (pinit reads) es in
+  fw s = FEndSelf -> cancelled s = false -> readc s = shown s ++ och s.
+Proof. exact self_end_complete. Qed.
+Theorem c03_queue_bounded : forall cap reads es,
+  let s := prun cap (pinit reads) es in (length (q s) <= 2)%nat /\ (length (och s) <= cap)%nat.
+Proof. exact queues_bounded. Qed.
